@@ -144,12 +144,19 @@ def spec : Nat → List Cmd → Bool → Cmd → B → Option B
       | none => none
       | some b1 => some (B.errexitCheck sup b1)
     | .pipe codes lastc =>
+      if b.st.lastpipe then
+        -- lastpipe: the last element is executed by the shell itself (same loop level, jumps stay pending)
+        match spec fuel fs sup lastc b with
+        | none => none
+        | some b1 =>
+          if b1.pending then some (b1.setLast (pipeStatus b.st.pipefail (codes ++ [b1.st.last])))
+          else some (B.errexitCheck sup (b1.setLast (pipeStatus b.st.pipefail (codes ++ [b1.st.last]))))
+      else
       match spec fuel fs sup lastc { b with level := 0 } with
       | none => none
       | some b1 =>
         some (B.errexitCheck sup { b with st :=
           { b.st with trace := b1.st.trace, last := pipeStatus b.st.pipefail (codes ++ [b1.st.last]) } })
-
 def specList : Nat → List Cmd → Bool → Cmds → B → Option B
   | fuel, fs, sup, cs, b =>
     if b.pending then some b else
